@@ -22,13 +22,13 @@ package node
 //@   ensures [C08.mint.only] forall a addr, d string :: a != moduleAddr("node") ==> bal(a, d) == old(bal(a, d))
 //@   ensures [C08.mint.counter] old(has(Pool)) ==> has(Pool) && get(Pool).TotalReward.Amount - old(get(Pool).TotalReward.Amount)
 //@       == bal(moduleAddr("node"), param(KeyBlockReward).Denom) - old(bal(moduleAddr("node"), param(KeyBlockReward).Denom))
-//@   ensures [C08.mint.bound] old(has(Pool)) ==> bal(moduleAddr("node"), param(KeyBlockReward).Denom) - old(bal(moduleAddr("node"), param(KeyBlockReward).Denom))
+//@   ensures [C08.mint.bound] [C06.mint.bound] old(has(Pool)) ==> bal(moduleAddr("node"), param(KeyBlockReward).Denom) - old(bal(moduleAddr("node"), param(KeyBlockReward).Denom))
 //@       <= div(param(KeyBlockReward).Amount, pow2(GetRewardAge(old(get(Pool)))))
 //@   ensures [C08.mint.nonneg] bal(moduleAddr("node"), param(KeyBlockReward).Denom) - old(bal(moduleAddr("node"), param(KeyBlockReward).Denom)) >= 0
 //@   ensures [C08.mint.baseline] old(has(Pool)) && old(get(Pool).TotalPledged.Amount) < param(KeyBaseLine).Amount && old(get(Pool).TotalPledged.Denom) == param(KeyBaseLine).Denom ==>
 //@       bal(moduleAddr("node"), param(KeyBlockReward).Denom) - old(bal(moduleAddr("node"), param(KeyBlockReward).Denom))
 //@       <= max(0, decmul(old(get(Pool).TotalPledged.Amount) * 1000000000000000000, decFromStr(param(KeyAPY))) / (param(KeyHalvingPeriod) / 2) / 1000000000000000000)
-//@   ensures [C08.mint.acc] old(has(Pool)) && old(get(Pool).TotalStorage) > 0 ==> get(Pool).AccRewardPerByte.Amount - old(get(Pool).AccRewardPerByte.Amount)
+//@   ensures [C08.mint.acc] [C06.mint.acc] old(has(Pool)) && old(get(Pool).TotalStorage) > 0 ==> get(Pool).AccRewardPerByte.Amount - old(get(Pool).AccRewardPerByte.Amount)
 //@       == ((bal(moduleAddr("node"), param(KeyBlockReward).Denom) - old(bal(moduleAddr("node"), param(KeyBlockReward).Denom))) * 1000000000000000000) / old(get(Pool).TotalStorage)
 //@   ensures [C14.begin.frame] old(has(Pool)) ==> get(Pool).TotalStorage == old(get(Pool).TotalStorage) && get(Pool).TotalPledged == old(get(Pool).TotalPledged)
 
